@@ -309,6 +309,38 @@ pub fn deliver_and_judge(
         if v.admit {
             let blk = blk.unwrap();
             let hash = blk.block_hash().to_byte_array();
+            // Domain of the property: blocks are transaction-valid (the canister does not and is
+            // not asked to check spends). A byte-level mutation can re-parent a valid block onto
+            // another branch (copied parent hash + regtest work met by chance) where the outputs
+            // it spends do not exist: such a response is outside the domain and is not judged.
+            {
+                let pid = hw.w.model.id_of(&blk.header.prev_blockhash.to_byte_array()).unwrap();
+                let ledger = hw.w.model.ledger_at(pid);
+                let mut created: std::collections::BTreeSet<(H32, u32)> = Default::default();
+                let mut spent: std::collections::BTreeSet<(H32, u32)> = Default::default();
+                let mut in_domain = true;
+                for tx in &blk.txdata {
+                    if !tx.is_coinbase() {
+                        for inp in &tx.input {
+                            let key = (inp.previous_output.txid.to_byte_array(), inp.previous_output.vout);
+                            if !(ledger.contains_key(&key) || created.contains(&key)) || !spent.insert(key) {
+                                in_domain = false;
+                            }
+                        }
+                    }
+                    let txid = crate::model::txid32(tx);
+                    for k in 0..tx.output.len() {
+                        created.insert((txid, k as u32));
+                    }
+                }
+                if !in_domain {
+                    out.class("skipped_block_spending_missing_output");
+                    for id in temp_admitted.iter().rev() {
+                        hw.w.model.live.remove(id);
+                    }
+                    return false;
+                }
+            }
             expect_admitted.push(hash);
             // make it live in the model so that later items see it
             let id = match hw.w.model.id_of(&hash) {
